@@ -8,6 +8,7 @@ import (
 	"sort"
 	"strings"
 	"sync"
+	"time"
 
 	kmip "github.com/ovh/kmip-go"
 	"github.com/ovh/kmip-go/payloads"
@@ -410,7 +411,13 @@ func sequenceCase(c *core.Ctx, r *core.Rand, i int) {
 // concurrentCase: messages for DIFFERENT versions are encoded at the same moment by several goroutines (the per-type
 // encode plans are shared process-wide); each output must be the layout of its own version.
 func concurrentCase(c *core.Ctx, r *core.Rand, i int) {
-	const G = 8
+	for round := 0; round < 25; round++ {
+		concurrentRound(c, r, i*25+round)
+	}
+}
+
+func concurrentRound(c *core.Ctx, r *core.Rand, i int) {
+	const G = 16
 	per := 24
 	type job struct {
 		msg   any
@@ -421,8 +428,8 @@ func concurrentCase(c *core.Ctx, r *core.Rand, i int) {
 	for g := 0; g < G; g++ {
 		for k := 0; k < per; k++ {
 			minor := (g + k) % 5
-			if k%3 == 0 {
-				minor = []int{0, 4}[g%2] // the extremes, at the same moment
+			if k%3 != 0 {
+				minor = []int{0, 4}[(g+k)%2] // mostly the extremes, alternating, at the same moment in different goroutines
 			}
 			gg := gen.New(r, gen.Mode{Minor: minor, Gate: false, Text: gen.TextASCII, TextDates: true}, refmodel.Gates())
 			var msg any
@@ -502,9 +509,21 @@ func Spec() *core.Spec {
 			"(directly in its payload, in a batch of three at each position, CryptographicParameters as attribute value / inside KeyWrappingData of an object / inside a KeyWrappingSpecification, headers with and without authentication), " +
 			"plus seeded random messages whose gated fields are populated regardless of version; each encoded in binary, XML and JSON and compared with the reference layout at that version (text documents read by the harness's own readers), " +
 			"and the full 1.4 encoding with rewritten header version decoded; plus a diff of the version= annotations present in the tree against the pin. " +
-			"8 goroutines encoding messages for different versions at the same moment; sequences of 2-4 messages of different versions through one encoder (appended, or cleared in between; three encodings); distinct = distinct expected layout shapes",
+			"16 goroutines encoding messages for different versions at the same moment; sequences of 2-4 messages of different versions through one encoder (appended, or cleared in between; three encodings); distinct = distinct expected layout shapes",
 		Assumptions: []string{"/verif/ref/version_gates.json is the pinned reading of KMIP 1.0-1.4 for the 61 fields; a field gated by the specification but unknown to both the library and the pin is invisible"},
 		Required:    []string{"messages", "decode_side_checks", "text_encoding_checks", "matrix.populated.present", "matrix.populated.absent", "matrix.unpopulated", "annotations_compared", "sequence_messages", "sequence_messages.appended", "concurrent_encodes"},
+		// a data race whose innermost frames are the encoder's version-gating code means the gate of one message is
+		// decided by the state of another: reported as a violation (other race reports print as diagnostics only)
+		RaceVerdict: func(r core.RaceReport) (string, bool) {
+			for _, st := range r.Frames {
+				for k, f := range st {
+					if k < 2 && strings.Contains(f, "ttlv.") && (strings.Contains(f, "Version") || strings.Contains(f, "version")) {
+						return "C05:data-race-on-version-gating:" + f, true
+					}
+				}
+			}
+			return "", false
+		},
 		Families: []core.Family{
 			{Name: "annotations", Exhaustive: true, N: func(string) int { return 1 }, Run: func(c *core.Ctx, r *core.Rand, i int) {
 				live := map[string]string{}
@@ -592,12 +611,13 @@ func Spec() *core.Spec {
 				}
 				return 1500
 			}, Run: sequenceCase},
-			{Name: "concurrent", N: func(tier string) int {
+			// in processes of their own, built with the race detector: a race on the state that decides the gating is a violation
+			{Name: "concurrent", Isolated: true, Race: true, N: func(tier string) int {
 				if tier == core.Thorough {
-					return 6000
+					return 64
 				}
-				return 60
-			}, Run: concurrentCase},
+				return 4
+			}, Run: concurrentCase, Timeout: 120 * time.Second},
 			{Name: "random", N: func(tier string) int {
 				if tier == core.Thorough {
 					return 600000
